@@ -7,7 +7,7 @@ from ..core import terms as T
 from ..core import asthelp as H
 from ..core.interp import Interp, assume
 from ..core.progdb import AnalysisError, walk_no_nested
-from ..core.values import Frame, Obj, PyTuple, to_term, ClassRef
+from ..core.values import Frame, Obj, PyTuple, Ser, to_term, ClassRef
 
 EXPLANATION = (
     "Symbolic evaluation of every Filter subclass's __call__ in hta/common/trace_filter.py on every path (helper filters and "
@@ -281,17 +281,32 @@ def _string_detection(db, chk):
     """R6: 'does this column hold decoded names' must accept every dtype pandas uses for strings"""
     ut = db.mod("hta.utils.utils")
     g = ut.func("get_symbol_column_names")
-    cands = [[H.str_const(e) for e in lp.iter.elts] for lp in ast.walk(g) if isinstance(lp, ast.For) and isinstance(lp.iter, (ast.List, ast.Tuple))]
-    firsts = [any(isinstance(x, ast.Break) for x in ast.walk(lp)) for lp in ast.walk(g) if isinstance(lp, ast.For) and isinstance(lp.iter, (ast.List, ast.Tuple))]
-    okc = sorted(cands) == sorted([["name", "s_name"], ["cat", "s_cat"]]) and all(firsts)
-    chk.ob("C18.R6-string-detection", "the decoded column is looked for under `name` / `cat` FIRST and under `s_name` / `s_cat` only otherwise (first match wins)", okc if cands else None, ut.loc(g),
-           found=cands, accepted=[["name", "s_name"], ["cat", "s_cat"]], why="preferring s_name makes NameFilter match the SHORTENED names of a frame that carries both: unanchored patterns select other rows")
+    # decided by abstract runs: which columns get_symbol_column_names picks on frames with known columns (string-ness per column given by the dtype test)
+    def picked(cols):
+        def hook(I, name, pos, kw, node):
+            if name.endswith("is_string_dtype"):
+                return cols.get(getattr(pos[0], "name", None)) if pos and isinstance(pos[0], Ser) else None
+            return NotImplemented
+        I = Interp(db, call_hook=hook)
+        try:
+            runs = [r for r in I.explore("hta.utils.utils:get_symbol_column_names", lambda I: {"df": Frame(("param", "DF"), known=list(cols))}) if r.raised is None]
+        except AnalysisError:
+            return None
+        r = runs[0].ret if len(runs) == 1 and not runs[0].path else None
+        return list(r.items) if isinstance(r, PyTuple) and all(isinstance(x, str) for x in r.items) else None
+    cases = (({"name": True, "s_name": True, "cat": True, "s_cat": True}, ["name", "cat"]), ({"name": False, "s_name": True, "cat": False, "s_cat": True}, ["s_name", "s_cat"]),
+             ({"name": False, "cat": False}, ["", ""]), ({"s_name": True, "cat": True}, ["s_name", "cat"]), ({"name": True, "s_name": False, "s_cat": True}, ["name", "s_cat"]))
+    got = [picked(c) for c, _ in cases]
+    wrong = [{"columns (is string)": c, "picked": g_} for (c, want), g_ in zip(cases, got) if g_ is not None and g_ != want]
+    chk.ob("C18.R6-string-detection", "the decoded column is looked for under `name` / `cat` FIRST and under `s_name` / `s_cat` only otherwise (first match wins)",
+           None if any(g_ is None for g_ in got) and not wrong else not wrong, ut.loc(g), found=wrong or got, accepted=[w for _, w in cases],
+           why="preferring s_name makes NameFilter match the SHORTENED names of a frame that carries both: unanchored patterns select other rows")
     sites = [("hta.utils.utils", "get_symbol_column_names"), (TF, "NameStringColumnFilter.__call__")]
     for mn, q in sites:
         mod = db.mod(mn)
         f = mod.func(q)
         bad, good = [], []
-        for n in ast.walk(f):
+        for n in (x for unit in H.with_private_callees(mod, f, depth=2) for x in ast.walk(unit)):
             if isinstance(n, ast.Compare) and any(isinstance(o, (ast.Eq, ast.NotEq, ast.Is, ast.IsNot)) for o in n.ops):
                 txt = ast.unparse(n)
                 if ("dtype" in txt) and any(k in txt for k in ("object", "'O'", '"O"', "np.object_", "str")):
@@ -301,7 +316,7 @@ def _string_detection(db, chk):
             if isinstance(n, ast.Compare) and any(isinstance(o, ast.In) for o in n.ops) and "dtype.kind" in ast.unparse(n.left if hasattr(n, "left") else n):
                 ks = set(ast.literal_eval(n.comparators[0])) if isinstance(n.comparators[0], (ast.Tuple, ast.List, ast.Set, ast.Constant)) else set()
                 (good if {"O", "U", "T"} <= set(ks) else bad).append(ast.unparse(n))
-        chk.ob("C18.R6-string-detection", f"{mn}:{q} recognises string columns by a dtype test that accepts object, str and string dtypes", bool(good) and not bad, mod.loc(f),
+        chk.ob("C18.R6-string-detection", f"{mn}:{q} recognises string columns by a dtype test that accepts object, str and string dtypes", (bool(good) and not bad) if (good or bad) else None, mod.loc(f),
                found={"accepted_idioms": good, "rejected_idioms": bad}, accepted="pd.api.types.is_string_dtype(col) | dtype.kind in {'O','U','T'}",
                why="equality with object fails for pandas' str dtype: NameFilter on decoded names then returns every row (F5)", key=f"{mn}:{q.split('.')[0]}|dtype-eq-object")
 
